@@ -3,4 +3,4 @@
 Require Import ScanFull InstsFull Pass C11Groups C03Merge C08Eager PassProofs GhostTrace Monitors.
 Require Extraction.
 Require Import ExtrOcamlBasic.
-Extraction "../runner/mon.ml" mon16 chk chkN once_b runC runK runE eager_b bal_b c05_b race_b wait_b noend strip polls_from.
+Extraction "../runner/mon.ml" mon16 chk chkN once_b runC runK runE eager_b bal_b c05_b race_b wait_b chain_b zip_b noend strip polls_from.
